@@ -4,7 +4,7 @@
 use crate::drivers::Ctx;
 use crate::like;
 use crate::types::*;
-use parity_scale_codec::{Compact, CompactRef, Ref};
+use parity_scale_codec::{Compact, CompactRef, OptionBool, Ref};
 use std::borrow::Cow;
 use std::collections::{BTreeMap, BTreeSet, BinaryHeap, LinkedList, VecDeque};
 use std::rc::Rc;
@@ -79,6 +79,12 @@ pub fn drive(ctx: &mut Ctx) {
 	like!(ctx, "Option<&T>/Option<T>", Option<&u32> => Option<u32>, Option<u32>, |b| b.as_ref());
 	like!(ctx, "Result<&T,&E>/Result<T,E>", Result<&u8, &String> => Result<u8, String>, Result<u8, String>, |b| b.as_ref());
 	like!(ctx, "[&T;N]/[T;N]", [&u16; 3] => [u16; 3], [u16; 3], |b| [&b[0], &b[1], &b[2]]);
+	// arrays whose elements take one byte of memory but are not encoded as that byte
+	like!(ctx, "[OptionBool;3] self", [OptionBool; 3] => [OptionBool; 3], [OptionBool; 3], |b| b.clone());
+	like!(ctx, "Box<[Option<bool>;4]>/[..;4]", Box<[Option<bool>; 4]> => [Option<bool>; 4], [Option<bool>; 4], |b| Box::new(b.clone()));
+	like!(ctx, "&[Compact<u8>;3]/[..;3]", &[Compact<u8>; 3] => [Compact<u8>; 3], [Compact<u8>; 3], |b| &b);
+	like!(ctx, "[Option<NonZeroU8>;2] self", [Option<std::num::NonZeroU8>; 2] => [Option<std::num::NonZeroU8>; 2], [Option<std::num::NonZeroU8>; 2], |b| b.clone());
+	like!(ctx, "[bool;5] self", [bool; 5] => [bool; 5], [bool; 5], |b| b.clone());
 	like!(ctx, "[Box<T>;N]/[T;N]", [Box<u32>; 2] => [u32; 2], [u32; 2], |b| [Box::new(b[0]), Box::new(b[1])]);
 	like!(ctx, "(&T,)/(T,)", (&u64,) => (u64,), (u64,), |b| (&b.0,));
 	like!(ctx, "(&A,&B)/(A,B)", (&u8, &String) => (u8, String), (u8, String), |b| (&b.0, &b.1));
@@ -178,6 +184,15 @@ pub fn drive(ctx: &mut Ctx) {
 	{
 		use bitvec::{order::Msb0, vec::BitVec};
 		like!(ctx, "BitVec self", BitVec<u16, Msb0> => BitVec<u16, Msb0>, BitVec<u16, Msb0>, |b| b.clone());
+		// the same bits held at a non-zero offset inside the first storage element (what split_off / sub-slices leave)
+		like!(ctx, "BitVec(head 3)/BitVec u8", BitVec<u8, Msb0> => BitVec<u8, Msb0>, BitVec<u8, Msb0>, |b| {
+			let mut t: BitVec<u8, Msb0> = BitVec::repeat(true, 3); t.extend_from_bitslice(&b); BitVec::from_bitslice(&t[3..]) });
+		like!(ctx, "BitVec(head 5)/BitVec u16", BitVec<u16, bitvec::order::Lsb0> => BitVec<u16, bitvec::order::Lsb0>, BitVec<u16, bitvec::order::Lsb0>, |b| {
+			let mut t: BitVec<u16, bitvec::order::Lsb0> = BitVec::repeat(true, 5); t.extend_from_bitslice(&b); BitVec::from_bitslice(&t[5..]) });
+		like!(ctx, "BitVec(head 1)/BitVec u32", BitVec<u32, Msb0> => BitVec<u32, Msb0>, BitVec<u32, Msb0>, |b| {
+			let mut t: BitVec<u32, Msb0> = BitVec::repeat(true, 1); t.extend_from_bitslice(&b); t.split_off(1) });
+		like!(ctx, "BitBox(head 2) self u8", bitvec::boxed::BitBox<u8, bitvec::order::Lsb0> => bitvec::boxed::BitBox<u8, bitvec::order::Lsb0>, bitvec::boxed::BitBox<u8, bitvec::order::Lsb0>, |b| {
+			let mut t: BitVec<u8, bitvec::order::Lsb0> = BitVec::repeat(true, 2); t.extend_from_bitslice(&b); bitvec::boxed::BitBox::from_bitslice(&t[2..]) });
 	}
 	#[cfg(feature = "generic-array")]
 	{
